@@ -819,7 +819,7 @@ func (r *FnRun) havocLoop(st *State, li *loopInfo, b *ssa.BasicBlock) {
 		st.epoch++
 	}
 	if li.atomics {
-		for _, g := range []string{"cas_dec", "cas_other", "add_one", "add_other", "stores", "signals"} {
+		for _, g := range []string{"cas_dec", "cas_other", "add_one", "add_other", "stores", "signals", "broadcasts"} {
 			st.ghost["ghost:"+g] = st.declare(r.freshName("gh_"+g), BV(32, false))
 		}
 	}
@@ -1970,12 +1970,22 @@ func (r *FnRun) finish() {
 		}
 	}
 	// canary: `ensures false` on a returning path must fail (some return is reachable)
-	n := 0
+	// (a sample of the returning paths, spread evenly over all of them: path enumeration
+	// also yields infeasible paths, and the first few may all be of that kind)
+	var rets []*Outcome
 	for _, o := range r.Outcomes {
-		if o.Kind == "return" && n < 12 {
-			n++
-			r.addGoalRaw(&Goal{Oblig: r.FnName + "/canary.return-reachable", Prefix: o.St.log[:len(o.St.log):len(o.St.log)], Goal: False, Expect: "sat-any"})
+		if o.Kind == "return" {
+			rets = append(rets, o)
 		}
+	}
+	const maxCanary = 24
+	stride := 1
+	if len(rets) > maxCanary {
+		stride = (len(rets) + maxCanary - 1) / maxCanary
+	}
+	for i := 0; i < len(rets); i += stride {
+		o := rets[i]
+		r.addGoalRaw(&Goal{Oblig: r.FnName + "/canary.return-reachable", Prefix: o.St.log[:len(o.St.log):len(o.St.log)], Goal: False, Expect: "sat-any"})
 	}
 }
 
